@@ -667,6 +667,19 @@ def run(ctx):
                     r9.inst("StringArray::cast [cfg %s]" % cfgname, "the whole list converted with TryInto (fails unless the length is SIZE), the list untouched before")
                 else:
                     r9.viol("R9:StringArray::cast", "the fetched list becomes `%s` after %s; expected the untouched list converted with TryInto::try_into(..).unwrap()" % (got, [mirsum.fmt(e) for e in eff] or "no other call"), file=bb.file, line=bb.line)
+    # the client decodes the fetched file into *owned* strings: a borrowed `&str` cannot hold a string that contains a JSON escape
+    # (serde_json then fails with "expected a borrowed string") - the type the response is deserialised into, read from MIR
+    for nme, bb in prog.bodies.items():
+        if re.search(r"^<leptos_i18n::fetch_translations::LocaleServerFnOutputClient as .*Deserialize<'de>>::deserialize$", nme):
+            tys = []
+            for ci, ct in bb.calls():
+                if re.search(r"Deserialize<'de>.*>::deserialize$|Deserialize::deserialize$", callee_name(ct) or ""):
+                    d_ = ct.get("dest")
+                    tys.append(bb.local_ty(d_["l"]) if d_ else "?")
+            if len(tys) == 1 and re.search(r"Vec<(std::boxed::Box<str>|std::string::String|alloc::boxed::Box<str>|alloc::string::String)>", tys[0]) and "&" not in tys[0].split(",")[0]:
+                r9.inst("LocaleServerFnOutputClient::deserialize", "the response is decoded as %s: owned strings, any JSON escape included" % tys[0].split(",")[0][:80])
+            else:
+                r9.viol("R9:LocaleServerFnOutputClient::deserialize", "the fetched table is decoded as %s: only owned strings (Vec<Box<str>> / Vec<String>) can hold text with JSON escapes (quotes, backslashes, line ends)" % tys, file=bb.file, line=bb.line)
     return [r1_indexer(ctx, prog), r2_single_writer(ctx, prog), r3_traversal(ctx, prog), r4_subkey_push(ctx), r5_templates(ctx), r6_json(ctx, prog), r7, r8, r9]
 
 
